@@ -10,6 +10,12 @@ const i32 CInt = 42
 const i64 CNeg = -9000000000
 const i16 CHex = 0x1F
 const byte CByte = -7
+const i64 CMax = 9223372036854775807
+const i64 CMin = -9223372036854775808
+const i32 CI32Min = -2147483648
+const i16 CI16Max = 32767
+const byte CByteMin = -128
+const i64 CHexBig = 0x7FFFFFFFFFFFFFFF
 const double CDbl = 2.5
 const double CDblInt = 3
 const double CDblExp = 1e3
